@@ -32,11 +32,17 @@ def _run(ctx):
     R = "R-ORDER"
     enc = F.fn("Content::encode")
     bodies = F.with_closures(enc)
-    wo = [(b, c) for b in bodies for c in b.calls if c.local and c.cname.endswith("Writer::write_object")]
-    # a write into the buffer: Write::write_all, or (the buffer is a Vec<u8>) Vec::extend_from_slice — the same bytes either way
-    WR = r"io::Write::write_all$|Vec::<u8(, .*)?>::extend_from_slice$|Vec::<T, A>::extend_from_slice$"
-    sp = [(b, c) for b in bodies for c in lib.calls_named(b, WR) if len(c.args) > 1 and lib._const_bytes_through(b, c.args[1]) in (b" ", b"\n")]
-    ops = [(b, c) for b in bodies for c in lib.calls_named(b, WR) if len(c.args) > 1 and "operator" in b.oname(c.args[1], 4)]
+    # what the encoder writes, as a token stream (lib.out_tokens): a write into the buffer is Write::write_all, a write! with a
+    # template, Vec::extend_from_slice or Vec::push — the same bytes whichever way
+    class Tk:
+        def __init__(self, b, tk):
+            self.b, self.kind, self.v, self.bb = b, tk[0], tk[1], tk[2]
+            cs_ = b.callsite_at(tk[2])
+            self.ln = cs_.ln if cs_ is not None else None
+    toks = [Tk(b, tk) for b in bodies for tk in lib.out_tokens(b)]
+    wo = [(t.b, t) for t in toks if t.kind == "call" and t.v.endswith("Writer::write_object")]
+    sp = [(t.b, t) for t in toks if t.kind == "lit" and t.v[:1] in (b" ", b"\n")]
+    ops = [(t.b, t) for t in toks if t.kind == "val" and re.search(r"(^|\.)operator\)*$", lib.val_source(t.b, t.v))]
     ctx.floor(R, "write_object calls in Content::encode", len(wo), 1)
     ctx.floor(R, "operator writes in Content::encode", len(ops), 1)
     # after every operand an unconditional separator precedes the next token: on every path from write_object to the
@@ -122,6 +128,10 @@ def _run(ctx):
                 continue
             o_ = lib.origin_local(F, x, tk[1]) if tk[1] is not None else None
             last = [e.get("n") for e in (o_[2] if o_ else []) if isinstance(e, dict) and "f" in e and e.get("loc")]
+            if not last:
+                # a formatted argument is a reference to the value: read the field off its rendering
+                m_ = re.search(r"(?:^|\.)(\w+)\)*$", lib.val_source(x, tk[1]))
+                last = [m_.group(1)] if m_ else []
             if not last or last[-1] not in ("operator", "content"):
                 rawvals.append(lib.val_source(x, tk[1]))
     ctx.ob("R-SIB", "raw-writes|Content::encode", not rawvals, "only the operator text and the image data are written without Writer::write_object", enc.where(),
